@@ -616,6 +616,15 @@ def standard_proof_phase(res, module, prefix, gen_status, needed_modules, thorou
     res.obligations = names
     res.checker_cmd = "cd lean && lake build %s ; lake env lean <#print axioms of %d theorems>%s" % (
         module, len(names), " ; lake env leanchecker " + module if thorough else "")
+    # hand models: the functions they mirror must still have the text they were written from (tools/handmodels.py)
+    try:
+        import handmodels
+        hm = handmodels.compare(res.pid)
+        res.extra["hand_model_fingerprints"] = "match" if not hm else "%d function(s) differ" % len(hm)
+        for w, d in hm:
+            res.broken.append((w, d))
+    except Exception as e:
+        res.broken.append(("hand-model fingerprints (tools/handmodels.py)", repr(e)))
     if gen_status.get("fatal"):
         res.broken.append(("translation (clang AST)", gen_status["fatal"]))
         return False
